@@ -122,3 +122,70 @@ func runBounded(repo, verifDir string, it *BoundedItem, tier string) *BoundedRes
 	}
 	return r
 }
+
+// cmdReplay re-runs a recorded violation: for a bounded stand-in the failing input is executed again on the real
+// code (exit 1 if the oracle still fails); for an obligation the recorded solver verdict is shown and the
+// obligation is re-discharged on the current tree.
+func cmdReplay(args []string) int {
+	if len(args) != 1 {
+		fmt.Println("usage: govc replay <replay file>")
+		return 2
+	}
+	b, err := os.ReadFile(args[0])
+	if err != nil {
+		fmt.Println(err)
+		return 2
+	}
+	var rf map[string]interface{}
+	if err := json.Unmarshal(b, &rf); err != nil {
+		fmt.Println(err)
+		return 2
+	}
+	verifDir := "/verif"
+	if rf["kind"] == "bounded-stand-in" {
+		items, _ := loadBounded(filepath.Join(verifDir, "bounded.json"))
+		for _, it := range items {
+			if it.Name == rf["name"] && it.Property == rf["property"] {
+				tmp, _ := os.CreateTemp("", "replay-*.json")
+				in, _ := json.Marshal(rf["failing_input"])
+				tmp.Write(in)
+				tmp.Close()
+				defer os.Remove(tmp.Name())
+				out, err := overlayTest("/repo", verifDir, it.Pkg, it.Dir, it.Files, it.ReplayRun, map[string]string{"VERIF_REPLAY": tmp.Name(), "VERIF_PROP": it.Property}, 120)
+				fmt.Println(out)
+				if err != nil {
+					fmt.Printf("REPLAY property=%v: the recorded input still violates the property on the current tree\n", rf["property"])
+					return 1
+				}
+				fmt.Printf("REPLAY property=%v: the recorded input passes on the current tree\n", rf["property"])
+				return 0
+			}
+		}
+		fmt.Println("no bounded stand-in named", rf["name"])
+		return 2
+	}
+	fmt.Printf("obligation %v (%v) of %v: recorded status %v by %v\nstatement: %v\nSMT-LIB query: %v\n", rf["obligation"], rf["kind"], rf["function"], rf["status"], rf["solver"], rf["statement"], rf["smt2"])
+	if m, ok := rf["model"].(map[string]interface{}); ok && len(m) > 0 {
+		fmt.Println("counterexample (pre-state values from the solver model):")
+		var ks []string
+		for k := range m {
+			ks = append(ks, k)
+		}
+		sortStrings(ks)
+		for _, k := range ks {
+			fmt.Printf("  %s = %v\n", k, m[k])
+		}
+	}
+	fmt.Println("re-run /verif/bin/check", rf["property"], "to re-discharge the obligation on the current tree")
+	return 0
+}
+
+func sortStrings(xs []string) {
+	for i := range xs {
+		for j := i + 1; j < len(xs); j++ {
+			if xs[j] < xs[i] {
+				xs[i], xs[j] = xs[j], xs[i]
+			}
+		}
+	}
+}
